@@ -34,7 +34,7 @@ ASSUMPTIONS = [
 # one simulated conversion + oracles
 # --------------------------------------------------------------------------------------------
 
-PREEMPT_CHOICES = [0, 0, 0, 0, 0, 0, 0, 0, 0, 0.003, 0.003, 0.02]   # a quarter of the runs pre-empt at source-line level
+PREEMPT_CHOICES = [0, 0, 0, 0, 0, 0, 0, 0, 0, 0.003, 0.02, 0.1]   # a quarter of the runs pre-empt at source-line level
 
 
 def simulate(spec, cap, buf, chooser, step_cap, preempt=None):
